@@ -19,7 +19,45 @@ const STUB: [&str; 4] = [
 ];
 
 pub fn all() -> Vec<Property> {
-    vec![Property {
+    vec![c01(), c07()]
+}
+
+fn c07() -> Property {
+    Property {
+        id: "C07",
+        level: "exploration",
+        variants: vec![
+            Variant {
+                name: "scripted-window-history",
+                weight: 7,
+                make: || Box::pin(scen::c07::run_main()),
+                max_steps: 3_000_000,
+                note: "real client session <-> scripted receiving session end; link-level multi-frame transfers only",
+            },
+            Variant {
+                name: "transport-level-split",
+                weight: 1,
+                make: || Box::pin(scen::c07::run_split()),
+                max_steps: 3_000_000,
+                note: "same, with payloads that the transport splits below the session layer",
+            },
+        ],
+        quick_runs: 6000,
+        thorough_runs: 300_000,
+        rule: "one run = seeded initial next-outgoing-id (incl. values within a window of 2^32 and 2^31), windows, 1-3 sender links (+ optional receiver link), messages that are single- or multi-frame at link level, and a seeded history of peer flow frames (window 0, shrinking, unset next-incoming-id, echo) interleaved with the sends under a seeded schedule; every run is non-trivial (the peer's window always interacts with the sends); distinct = distinct event-log hash",
+        assumptions: vec![
+            "in-flight rule: a transfer is legal if it lies inside any window statement the peer had written before it and that is not provably superseded (quiescence floor)",
+            "quiescence = the peer task's virtual sleep returned with the network idle: on the paused clock that can only happen when no endpoint task was runnable",
+            "link credit is ample so that only the session window limits the sender",
+        ],
+        real_components: REAL.to_vec(),
+        stub_components: STUB.to_vec(),
+        expected_probes: vec!["window-zero", "flow-with-unset-next-incoming-id", "quiescence-floor", "peer-sent-transfer", "exact-next-incoming-id-checked", "transport-level-split"],
+    }
+}
+
+fn c01() -> Property {
+    Property {
         id: "C01",
         level: "exploration",
         variants: vec![Variant {
@@ -40,5 +78,5 @@ pub fn all() -> Vec<Property> {
         real_components: REAL.to_vec(),
         stub_components: STUB.to_vec(),
         expected_probes: vec!["multi-frame-message", "net-fragmented-delivery", "manual-credit-refill"],
-    }]
+    }
 }
